@@ -129,7 +129,10 @@ def run_scenarios(binary, scenarios, tag, timeout=120, prefix=None, env_extra=No
         status = "ok"
         try:
             p = subprocess.run(cmd, env=env, capture_output=True, timeout=timeout)
-            if p.returncode != 0:
+            if p.returncode == 98:
+                status = "timeout"          # the harness's own per-scenario watchdog (VERIF_SCN_TIMEOUT)
+                stderr_tail = ""
+            elif p.returncode != 0:
                 status = "crash:%d" % p.returncode
                 stderr_tail = p.stderr.decode("utf-8", "replace")[-600:]
             else:
